@@ -235,6 +235,8 @@ def decode_elf(data):
         e_entry, e_phoff, e_shoff = struct.unpack_from(en + "III", data, 24)
         e_flags, e_ehsize, e_phentsize, e_phnum, e_shentsize, e_shnum, e_shstrndx = struct.unpack_from(en + "IHHHHHH", data, 36)
     meta["entry"] = e_entry
+    if e_ehsize != (64 if is64 else 52):
+        problems.append("e_ehsize %d" % e_ehsize)
     want = 64 if is64 else 40
     if e_shentsize != want:
         problems.append("e_shentsize %d" % e_shentsize)
@@ -274,6 +276,32 @@ def decode_elf(data):
                 if a in mem:
                     problems.append("address 0x%x defined twice" % a)
                 mem[a] = data[s["offset"] + i]
+    # program headers: what a loader that maps PT_LOAD segments would see must agree with the sections
+    want_ph = 56 if is64 else 32
+    if e_phnum:
+        if e_phentsize != want_ph:
+            problems.append("e_phentsize %d" % e_phentsize)
+        elif e_phoff + e_phnum * e_phentsize > len(data):
+            problems.append("program header table runs past end of file")
+        else:
+            for i in range(e_phnum):
+                off = e_phoff + i * e_phentsize
+                if is64:
+                    p_type, p_flags, p_offset, p_vaddr, p_paddr, p_filesz, p_memsz, p_align = struct.unpack_from(en + "IIQQQQQQ", data, off)
+                else:
+                    p_type, p_offset, p_vaddr, p_paddr, p_filesz, p_memsz, p_flags, p_align = struct.unpack_from(en + "IIIIIIII", data, off)
+                if p_type != 1:
+                    continue
+                if p_offset + p_filesz > len(data):
+                    problems.append("PT_LOAD segment runs past end of file")
+                    continue
+                bad = 0
+                for k in range(p_filesz):
+                    a = p_vaddr + k
+                    if a in mem and mem[a] != data[p_offset + k]:
+                        bad += 1
+                if bad:
+                    problems.append("PT_LOAD segment disagrees with the sections at %d addresses" % bad)
     for s in secs:
         if s["type"] == 2:                              # SHT_SYMTAB
             if s["link"] >= len(secs):
